@@ -18,7 +18,17 @@
                                    values m * 10^e (finite, large magnitudes included); the harness
                                    reports (len-ok finite-and-nonneg sums-to-one-within-1e-9
                                    order-preserved) as 0/1 flags; the expected answer is what the
-                                   C14 softmax theorems demand: (1 1 1 1) *)
+                                   C14 softmax theorems demand: (1 1 1 1)
+   FLOAT TIER (oracles; IEEE arithmetic is not modelled): fty = 0 (f64) | 1 (f32); a number is
+   (m e) = the decimal m * 10^e rounded to the float type by the harness, which compares the
+   crate's results with the population formulas (the right-hand sides of C14_mean, C14_variance,
+   C14_cov_entry, C14_softmax_shift_is_max, C14_f1_harmonic) evaluated exactly on the rounded
+   inputs, inside a rounding budget, and reports 0/1 flags; the expected answer is all ones.
+     (14 8 fty (x ..))             non-empty: (mean-ok variance-ok forms-agree)
+     (14 9 fty rows)               rectangular, at least 1 x 1:
+                                   (values-ok symmetric diagonal-is-variance routes-agree)
+     (14 10 fty p r)               (value-ok)
+     (14 11 fty (x ..))            (length finite-nonneg sums-to-one order closed-form) *)
 From Coq Require Import List ZArith NArith Bool.
 From EasyML Require Import Base.Sx Model.Num Model.Stats.
 Import ListNotations.
@@ -78,8 +88,43 @@ Definition c14_run (op : Z) (args : list sx) : sx :=
   end.
 End Run.
 
+Definition dme14 (s : sx) : option (Z * Z) := dpair dZ dZ s.
+Definition fty_ok14 (t : Z) : bool := ((t =? 0) || (t =? 1))%Z.
+Definition ones (n : nat) : sx := SL (repeat (SZ 1) n).
+
+Definition c14_float (op : Z) (args : list sx) : sx :=
+  match op, args with
+  | 8%Z, [xs] =>
+      match dlist dme14 xs with
+      | Some (_ :: _) => ones 3
+      | _ => bad_case
+      end
+  | 9%Z, [rows] =>
+      match dlist (dlist dme14) rows with
+      | Some (r0 :: rest) =>
+          if negb (Nat.eqb (length r0) 0) && forallb (fun r => Nat.eqb (length r) (length r0)) rest
+          then ones 4 else bad_case
+      | _ => bad_case
+      end
+  | 10%Z, [p; r] =>
+      match dme14 p, dme14 r with
+      | Some _, Some _ => ones 1
+      | _, _ => bad_case
+      end
+  | 11%Z, [xs] =>
+      match dlist dme14 xs with
+      | Some _ => ones 5
+      | None => bad_case
+      end
+  | _, _ => bad_case
+  end.
+
 Definition run_c14 (args : list sx) : sx :=
   match args with
+  | SZ 8%Z :: SZ fty :: rest => if fty_ok14 fty then c14_float 8 rest else bad_case
+  | SZ 9%Z :: SZ fty :: rest => if fty_ok14 fty then c14_float 9 rest else bad_case
+  | SZ 10%Z :: SZ fty :: rest => if fty_ok14 fty then c14_float 10 rest else bad_case
+  | SZ 11%Z :: SZ fty :: rest => if fty_ok14 fty then c14_float 11 rest else bad_case
   | [SZ 7%Z; xs] =>
       match dlist (dpair dZ dZ) xs with
       | Some _ => SL [SZ 1; SZ 1; SZ 1; SZ 1]
